@@ -18,7 +18,10 @@ MANIFEST = {
          "and by monitors that evaluate the property text on the implementation's log.",
  "note": "Trusted: Lean kernel; the flattening of connection_cb into ioBegin/ops/ioEnd; accept4 interposition; "
          "uv__close redirected by macro in the unit harness; kernel behaviour of SCM_RIGHTS / SO_ERROR is an input. "
-         "Not modelled: UV_HANDLE_READING interplay on IPC pipes, macOS select fallback, Cygwin ENOSYS branch.",
+         "Not modelled here: the end-of-stream decision of uv__read/uv__stream_io on IPC pipes (READ_PARTIAL x POLLHUP; that code is "
+         "UvModel.StreamR, C06) - a sender that hangs up with handle-bearing messages unread is covered by the simulator's "
+         "ipchup scenarios and judged by a monitor (every handle of a completed uv_write2 arrives before end-of-stream), the "
+         "arrivals/claims are replayed through the fd-queue model; macOS select fallback, Cygwin ENOSYS branch.",
  "design": "DESIGN.md §3 C07",
  "technique": "Lean 4 proof over executable model + correspondence (unit-include harness, whole-library simulator) + monitors",
 }
@@ -310,4 +313,6 @@ def run(ctx):
     ctx.cov["rule"] = ("unit: exhaustive (count 1..40/64) x chunking x interleaved pops, then random op sequences on a listening or "
                        "IPC stream (accept results, EMFILE trick, allocation failures, 5 client kinds, close); non-trivial = queue grown "
                        "past 8 slots or a deferred accept, distinct by state-dump hash. sim: random programs over real sockets; "
-                       "non-trivial = >=1 deferred accept or >8 queued descriptors or a failed connect, distinct by trace hash")
+                       "non-trivial = >=1 deferred accept or >8 queued descriptors or a failed connect or an IPC sender hang-up with messages unread "
+                       "(close / shutdown / both directions shut x before the first read or inside the k-th callback x claim policy imm/every-N/late/"
+                       "paused reader x buffer 1..64K x plain and handle-bearing writes), distinct by trace hash")
